@@ -14,6 +14,8 @@ class Pauli(object):
     Parameters:
     g: int (2*N) - a Pauli string in binary repr.
     p: int - phase indicator (i power).'''
+    __array_ufunc__ = None # numpy scalars defer to __rmul__ / __radd__ of this class
+
     def __init__(self, g, p = None):
         self.g = g
         self.p = 0 if p is None else p
@@ -151,6 +153,8 @@ class PauliList(object):
     Parameters:
     gs: int (L, 2*N) - array of Pauli strings in binary repr.
     ps: int (L) - array of phase indicators (i powers).'''
+    __array_ufunc__ = None # numpy scalars defer to __rmul__ / __radd__ of this class
+
     def __init__(self, gs, ps = None):
         self.gs = gs
         self.ps = torch.zeros(self.L, device=self.gs.device, dtype=torch.float32) if ps is None else ps
